@@ -28,6 +28,8 @@ type ownFam struct {
 
 func init() { families["own"] = func() Family { return &ownFam{} } }
 
+func (f *ownFam) Reseed(r *rand.Rand) { f.rng = r }
+
 func (f *ownFam) Setup(cfg M, rng *rand.Rand) {
 	f.rng = rng
 	f.accts = strs(getl(cfg, "accts"), []string{"a", "b", "c"})
